@@ -46,10 +46,32 @@ class Ctx:
         return c
 
 
+def reads_heap(sf):
+    """a specification function with an object parameter reads that object's fields: its uninterpreted
+    symbol (recursive / opaque functions) takes the heap -- one array per declared field -- as hidden
+    arguments, so applications in different states are different terms (as in Boogie)"""
+    return any(t.kind == 'ref' for t in sf.params.values())
+
+
+def heap_keys():
+    return [f'{q}.{f}' for q in sorted(HEAPCLASSES) for f in sorted(HEAPCLASSES[q].fields)]
+
+
+def heap_args(sf, ctx):
+    if not reads_heap(sf):
+        return []
+    if ctx.heap is None:
+        raise VError(f'spec {sf.name} reads the heap but is used where there is none')
+    return [ctx.heap[k] for k in heap_keys()]
+
+
 def spec_fn_z3(sf):
     if sf.z3fn is None:
-        sorts = [sort_of(t) for t in sf.params.values()] + [sort_of(sf.returns)]
-        sf.z3fn = z3.Function('spec_' + sf.name, *sorts)
+        sorts = [sort_of(t) for t in sf.params.values()]
+        if reads_heap(sf):
+            sorts += [z3.ArraySort(z3.IntSort(), sort_of(HEAPCLASSES[k.rsplit('.', 1)[0]].fields[k.rsplit('.', 1)[1]]))
+                      for k in heap_keys()]
+        sf.z3fn = z3.Function('spec_' + sf.name, *(sorts + [sort_of(sf.returns)]))
     return sf.z3fn
 
 
@@ -235,6 +257,14 @@ class SpecEval:
             else:
                 z = same(a, b)
             return z if isinstance(op, ast.Is) else z3.Not(z)
+        if isinstance(op, (ast.In, ast.NotIn)) and isinstance(b, VList) and b.elem is not None and b.elem.kind == 'ref':
+            # membership in a list of objects: index form (see ops.nth)
+            k = z3.Int(fresh_name('k'))
+            notnone = z3.BoolVal(True)
+            if isinstance(a, VOpt):
+                notnone, a = z3.Not(a.isnone), a.val
+            r = z3.And(notnone, z3.Exists([k], z3.And(0 <= k, k < z3.Length(b.z), ops.nth(b.z, k, b.elem) == a.z)))
+            return r if isinstance(op, ast.In) else z3.Not(r)
         if isinstance(op, (ast.In, ast.NotIn)):
             if isinstance(a, VOpt) and isinstance(b, VList) and b.elem is not None and ty_of(a.val) == b.elem:
                 # an Optional member test against a list of plain values: None is not a member
@@ -455,7 +485,7 @@ class SpecEval:
             env = dict(zip(sf.params, [self.coerce(a, t) for a, t in zip(args, sf.params.values())]))
             return self.ev(sf.body, ctx.with_env(env))
         fn = spec_fn_z3(sf)
-        zargs = [to_z3(self.coerce(a, t), t) for a, t in zip(args, sf.params.values())]
+        zargs = [to_z3(self.coerce(a, t), t) for a, t in zip(args, sf.params.values())] + heap_args(sf, ctx)
         app = fn(*zargs)
         res = from_z3(app, sf.returns)
         if ctx.unfold > 0 and not opaque:
@@ -470,7 +500,7 @@ class SpecEval:
     def unfold(self, sf, args, ctx):
         fn = spec_fn_z3(sf)
         params = [self.coerce(a, t) for a, t in zip(args, sf.params.values())]
-        zargs = [to_z3(a, t) for a, t in zip(params, sf.params.values())]
+        zargs = [to_z3(a, t) for a, t in zip(params, sf.params.values())] + heap_args(sf, ctx)
         app = fn(*zargs)
         key = ('unf', sf.name, tuple(z.get_id() for z in zargs))
         seen = getattr(ctx.facts, '_seen', None)
